@@ -228,10 +228,20 @@ CHECKS['C17'] = {
     'explanation': 'units unq, lfp',
 }
 
+CHECKS['C16'] = {
+    'level': 'proof',
+    'units': ['lfw', 'lfp', 'unq', 'lrt'], 'kani': [],
+    'technique': 'contract-based deductive verification (Verus): exact functional contracts on the real link-format scanners and on Unquote, the writer text generated from the real writer (proved against it for C18), and the round trip as a theorem over those contracts',
+    'level_text': 'Unbounded proof relative to the assumed std-string contracts: (unit lfp) each call of LinkFormatParser::next / LinkAttributeParser::next returns exactly lf_link / lf_attrs / lf_rest resp. la_key / la_value / la_rest of its input (clauses links-exact, attrs-exact, with the loop invariants that carry them); (unit unq) Unquote yields unq(NotStarted, text) character by character; (unit lfw) with no failing write the sink holds exactly the concatenation of out_link / out_quoted / out_plain / out_u32, texts generated from the write calls of the code; (unit lrt, lemmas only) for every document - any number of links whose targets contain no \'>\', any attributes whose keys contain no separator, quote or \'=\' and do not begin or end with white space, values written by attr_quoted (arbitrary text, escapes included), by attr (text free of separators and quotes, not beginning or ending with white space) or by attr_u32 - and both settings of the newline option: iterating the link scanner over the written text yields the same links in order, iterating the attribute scanner over each link\'s attribute text yields the same keys in order, and each value unquotes to the original string (theorem_written_roundtrip / theorem_link_format_roundtrip).',
+    'level_note': 'Assumed: the std string functions over the byte-offset model (as C17), exact trim semantics (trim_*_matches strip every leading/trailing occurrence, trim() strips Unicode white space: uninterpreted predicate with the single fact that the double quote is not white space), integer formatting yields a non-empty string of characters that are neither separators, quotes nor white space, to_string() of an Unquote collects the iterator. The composition steps "iterating the exec scanners == parse_links / parse_attrs" and "sink text == written(d)" follow from the per-call contracts by induction over the call sequence; those two inductions are stated in the spec functions parse_links / parse_attrs / written, not proved on executable loops (there is no executable loop in the crate to prove them on). attr_u16 goes through attr_u32.',
+    'trusted': [T_VERUS, 'as C17 (std str wrappers over spec/strmodel.rs, Chars::next wrapper)', 'as C18 (sink model, write! stubs)', 'unit lrt: axioms - the double quote is not white space; decimal digits text is non-empty and contains no separator, quote or white space', 'exact trim specifications in spec/strmodel.rs (trim_end_of / trim_start_of / trim_*_ws)'],
+    'not_covered': ['the induction from per-call contracts to whole iterations / whole writer call sequences is by definition of parse_links / parse_attrs / written (spec level)', 'documents outside the stated domain (targets with \'>\', keys with separators, unquoted values with separators) - excluded by the property as well'],
+    'explanation': 'units lfw, lfp, unq, lrt',
+}
+
 HOOK_COMMITS = ['7321ffc', '9fef815']
 
 NOT_APPLICABLE = [
-    {'property_id': 'C16', 'reason': 'needs the exact functional behaviour of both link-format scanners (which substrings they yield on the writer\'s exact output, escapes included) composed with the writer and Unquote for all documents: the scanners are verified only for C17 (termination, no panic, substrings in order) over assumed std-string contracts (trim*/find/split_at/pointer difference); a grammar-level induction parse(write(d)) == d over those assumed contracts was not attempted, and Kani exhausts memory on 3-byte inputs (measured, DESIGN.md Appendix B); no check is registered'},
     {'property_id': 'C20', 'reason': 'retention/expiry is decided inside the external lru_time_cache crate from Instant::now(); no contract on coap-lite functions can express elapsed wall-clock time without assuming the property'},
 ]
 _PENDING = 'check not built yet in this session (contract-based route planned in DESIGN.md section 4); not claimed until it passes on the reference tree and fails on seeded mutants'
